@@ -79,6 +79,8 @@ namespace occa {
     reservationSet() : n(0) {}
     modeMemory_t** begin() { return a; }
     modeMemory_t** end() { return a + n; }
+    modeMemory_t* const* begin() const { return a; }
+    modeMemory_t* const* end() const { return a + n; }
     udim_t size() const { return (udim_t) n; }
     modeMemory_t** find(modeMemory_t *m) {
       compare lt;
@@ -98,7 +100,11 @@ namespace occa {
       a[k] = m; ++n; }
   };
 
+  typedef reservationSet verif_reservationSet;
+  typedef compare verif_compare;
   class modeMemoryPool_t { public:
+    typedef verif_reservationSet reservationSet;   /* nested names of the real class, for helpers that spell them */
+    typedef verif_compare compare;
     verif_ring modeMemoryRing;
     reservationSet reservations;
     udim_t alignment; udim_t reserved;
@@ -152,19 +158,19 @@ def build_unit(ctx):
 
     RF = 'range-for desugared ([stmt.ranged]): iterator loop over begin()/end()'
     AU = 'auto -> the iterator type of the set stub'
-    rf = (RF, r'for \(modeMemory_t\* m : reservations\) \{',
-          'for (modeMemory_t** verif_it = reservations.begin(); verif_it != reservations.end(); ++verif_it) { modeMemory_t* m = *verif_it;')
+    rf = (RF, r'for \((?:const )?modeMemory_t\s*\*\s*(?:const )?(\w+) : (\w+)\) \{',
+          r'for (modeMemory_t** verif_it = (modeMemory_t**) \2.begin(); verif_it != (modeMemory_t**) \2.end(); ++verif_it) { modeMemory_t* \1 = *verif_it;')
     parts = []
     parts.append(get(POOL_CPP, r'^  udim_t modeMemoryPool_t::numReservations\(\) const%s\{' % W, 'modeMemoryPool_t::numReservations'))
-    parts.append(get(POOL_CPP, r'^  void modeMemoryPool_t::addModeMemoryRef\(modeMemory_t \*mem\)%s\{' % W, 'modeMemoryPool_t::addModeMemoryRef', [rf + (1,)]))
+    parts.append(get(POOL_CPP, r'^  void modeMemoryPool_t::addModeMemoryRef\(modeMemory_t \*mem\)%s\{' % W, 'modeMemoryPool_t::addModeMemoryRef', [rf + ('*',)]))
     parts.append(get(POOL_CPP, r'^  void modeMemoryPool_t::removeModeMemoryRef\(modeMemory_t \*mem\)%s\{' % W, 'modeMemoryPool_t::removeModeMemoryRef',
-                     [rf + (1,), (AU, r'auto pos = ', 'modeMemory_t** pos = ', 1)]))
-    parts.append(get(POOL_CPP, r'^  modeMemory_t\* modeMemoryPool_t::reserve\(const udim_t bytes\)%s\{' % W, 'modeMemoryPool_t::reserve', [rf + (1,)]))
+                     [rf + ('*',), (AU, r'auto pos = ', 'modeMemory_t** pos = ', 1)]))
+    parts.append(get(POOL_CPP, r'^  modeMemory_t\* modeMemoryPool_t::reserve\(const udim_t bytes\)%s\{' % W, 'modeMemoryPool_t::reserve', [rf + ('*',)]))
     io = ('verbose output dropped (io::stdout)', r'io::stdout << [^;]*;', ';', 1)
     parts.append(get(POOL_CPP, r'^  void modeMemoryPool_t::resize\(const udim_t bytes\)%s\{' % W, 'modeMemoryPool_t::resize',
-                     [io, (AU, r'auto it = ', 'modeMemory_t** it = ', 1), (RF, r'for \(modeMemory_t\* m : reservations\) \{', rf[2], '*')]))
+                     [io, (AU, r'auto it = ', 'modeMemory_t** it = ', 1), rf + ('*',)]))
     parts.append(get(POOL_CPP, r'^  void modeMemoryPool_t::setAlignment\(const udim_t newAlignment\)%s\{' % W, 'modeMemoryPool_t::setAlignment',
-                     [(AU, r'auto it = ', 'modeMemory_t** it = ', 1), (RF, r'for \(modeMemory_t\* m : reservations\) \{', rf[2], '*')]))
+                     [(AU, r'auto it = ', 'modeMemory_t** it = ', 1), rf + ('*',)]))
     fl = 'flattening to the Serial-mode class: qualifier serial::memoryPool:: -> modeMemoryPool_t::'
     parts.append(get(SER_POOL, r'^    modeBuffer_t\* memoryPool::makeBuffer\(\)%s\{' % W, 'serial::memoryPool::makeBuffer',
                      [(fl, r'modeBuffer_t\* memoryPool::makeBuffer', 'modeBuffer_t* modeMemoryPool_t::makeBuffer', 1),
@@ -191,7 +197,11 @@ def build_unit(ctx):
         for h in extract_local_helpers(ctx, rel):
             fns.append(h)
             helpers.append(h.text)
+    helpers = [re.sub(rf[1], rf[2], h) for h in helpers]       # the same desugaring applies inside factored-out helpers
     real = '\n\n'.join(helpers + parts)
+    nrf = real.count('verif_it != ')
+    if nrf < 3:
+        raise Undecided('rewrite rule "%s" fired %d times over the pool unit (expected >= 3)' % (RF, nrf))
     real, n = re.subn(r'\bnullptr\b', '0', real)
     real, n = re.subn(r'\bdelete\s+([A-Za-z_]\w*)\s*;', r'verif_delete(\1);', real)
     if n < 3:
